@@ -15,7 +15,7 @@ VERIF = os.path.dirname(os.path.dirname(os.path.abspath(__file__)))
 LEAN = os.path.join(VERIF, "lean")
 CACHE = os.path.join(LEAN, ".lake", "exttie")
 DEPS = ["Rngs/Model/Words.lean", "Rngs/Model/RandCore.lean", "Rngs/Model/Xoshiro.lean", "Rngs/Model/XorShift.lean", "Rngs/Model/Jitter.lean", "Rngs/Model/Hc128.lean",
-        "Rngs/Lib/XorLinear.lean", "Rngs/Lib/ExtTie.lean"]
+        "Rngs/Model/Isaac.lean", "Rngs/Lib/XorLinear.lean", "Rngs/Lib/ExtTie.lean", "Rngs/Lib/ExtTieBlock.lean", "Rngs/Lib/ExtTieShapes.lean"]
 ALLOWED_AXIOMS = {"propext", "Classical.choice", "Quot.sound"}
 
 def dep_hash():
@@ -47,7 +47,8 @@ def run_once(repo, force, exclude):
     text, report, theorems = extract_units.generate(repo, exclude)
     names = [t[0] for t in theorems]
     text += "\n" + "\n".join(f"#print axioms Rngs.ExtTie.{n}" for n in names) + "\n"
-    key = hashlib.sha256((text + dep_hash() + "v2").encode()).hexdigest()[:24]
+    skipped = json.dumps({u: r.get("skipped") or r.get("error") for u, r in report.items()}, sort_keys=True, default=str)
+    key = hashlib.sha256((text + dep_hash() + skipped + "v3").encode()).hexdigest()[:24]
     os.makedirs(CACHE, exist_ok=True)
     cpath = os.path.join(CACHE, key + ".json")
     lock = open(os.path.join(CACHE, ".lock"), "w")
@@ -67,11 +68,15 @@ def run_once(repo, force, exclude):
         out = p.stdout + p.stderr
         lines = text.split("\n")
         # line ranges of the theorems and of the definitions
-        th_line = {}
+        th_line, cur_th = {}, None
         for i, l in enumerate(lines, 1):
             m = re.match(r"^theorem (\S+) :", l)
             if m:
-                th_line[i] = m.group(1)
+                cur_th = m.group(1)
+            elif cur_th and not l.startswith(" "):
+                cur_th = None           # a proof script continues on indented lines only
+            if cur_th:
+                th_line[i] = cur_th
         # which definition a line belongs to
         def_at, cur_ns = {}, None
         for i, l in enumerate(lines, 1):
@@ -91,7 +96,7 @@ def run_once(repo, force, exclude):
         for m in re.finditer(r"^[^\n:]*:(\d+):(\d+): error: (.*?)(?=^\S[^\n]*:\d+:\d+: (?:error|warning)|\Z)", out, re.S | re.M):
             ln, msg = int(m.group(1)), m.group(3).strip()
             if ln in th_line:
-                errors[th_line[ln]] = msg[:600]
+                errors.setdefault(th_line[ln], msg[:600])
             else:
                 def_errors.append((ln, msg[:300]))
                 if def_at.get(ln):
